@@ -660,7 +660,8 @@ class IntegratePlanar:
         assert isinstance(expx, int)
         assert isinstance(expy, int)
         if nnodes is None:
-            nnodes = 3 + expx + expy + curve.degree
+            # The integrand has degree (expx + expy + 1) * degree - 1
+            nnodes = 1 + (1 + expx + expy) * curve.degree
         assert isinstance(nnodes, int)
         assert nnodes >= 0
         assert expx >= 0
